@@ -59,6 +59,27 @@ CMR_ERROR CMRregularityTestR10(CMR* cmr, DecompositionTask* task, DecompositionQ
    * represents R10.
    */
 
+  /* The matrix need not be 3-connected here (this test runs before series-parallel reductions). Among the 5-by-5 matrices
+   * with these counts, the representations of R10 are exactly those without two rows or two columns of equal support. */
+  unsigned int rowSupport[5] = {0, 0, 0, 0, 0};
+  unsigned int columnSupport[5] = {0, 0, 0, 0, 0};
+  for (size_t row = 0; row < 5; ++row)
+  {
+    for (size_t e = dec->matrix->rowSlice[row]; e < dec->matrix->rowSlice[row + 1]; ++e)
+    {
+      rowSupport[row] |= 1u << dec->matrix->entryColumns[e];
+      columnSupport[dec->matrix->entryColumns[e]] |= 1u << row;
+    }
+  }
+  for (size_t i = 0; i < 5; ++i)
+  {
+    for (size_t j = i + 1; j < 5; ++j)
+    {
+      if (rowSupport[i] == rowSupport[j] || columnSupport[i] == columnSupport[j])
+        goto cleanup;
+    }
+  }
+
   if (dec->isTernary)
   {
     bool isCamion;
